@@ -714,6 +714,12 @@ pub fn run(args: &Args) -> Report {
                 stage_case(&mut st, "mux_frame", "replay".into(), rp.clone(), 64 << 20, move || run_mux_against(bytes, 2));
             }
             "c10-semantic" => stage_semantic(&mut st, args.seed),
+            "gossipnet" => {
+                // the debug-page scenario (panic output is shown in a replay)
+                std::env::set_var("VERIF_SHOW_PANICS", "1");
+                let _ = super::gossipnet::report_debug_page(&mut rep, args.seed);
+                return rep;
+            }
             "c10-control-flood" => {
                 let ch = core::Chooser::new(vec![], None);
                 if let Some(v) = super::c14::control_flood_run(&ch, 60, rp["accept_first"].as_bool().unwrap_or(false)).violation {
@@ -763,6 +769,8 @@ pub fn run(args: &Args) -> Report {
     stage_semantic(&mut sem, args.seed);
     let (semc, semok, semerr) = (sem.cases, sem.ok, sem.err);
     stg.merge(sem);
+    // (c5) what the node renders from absurd announcements: the real debug page over loop-back TCP
+    let page_cov = super::gossipnet::report_debug_page(&mut rep, args.seed);
     let unexpected_plaintext = stg.viol.keys().any(|k| k.contains("UNEXPECTED"));
     let _ = unexpected_plaintext;
     let (dc, dok, derr) = (dec.cases, dec.ok, dec.err);
@@ -782,6 +790,7 @@ pub fn run(args: &Args) -> Report {
         "decoder_cases": dc, "decoder_accepted": dok, "decoder_refused": derr,
         "stage_cases": sc, "stage_ok": sok, "stage_refused": serr,
         "mux_header_state_items": mux_items,
+        "debug_page": page_cov,
         "semantic_cases": semc, "semantic_processed": semok, "semantic_refused": semerr,
         "max_allocation_bytes_per_case": ma,
         "max_decoder_allocation_ratio": mr,
